@@ -137,13 +137,15 @@ Definition cret (ol : bool) (size : Z) (m : kmem) (t : nat) (c : mc) (v : Z) : k
   end.
 
 (* A failed pop inside do_maintenance (the deferred unlock of the channel lock
-   finds a locker announced in the counter but not yet linked) yields with
-   manager->current_fiber = the maintenance fiber, whose state (not registered)
-   is RUNNING: that yield is only the fiber_scheduler_next point and returns.
+   finds a locker announced in the counter but not yet linked) calls
+   fiber_manager_yield with manager->current_fiber = the fiber running the
+   scheduler loop (the maintenance fiber), state RUNNING.  Since fix 9f9cf90
+   ("the scheduler-loop fiber is never queued by fiber_manager_yield") that
+   call only does cpu_relax() and returns: on the T1 machine it is not a
+   scheduling point and leaves no trace; the wake loop simply retries the pop.
    T1K.kstep models the yield of a failed pop as a yield of fiber t itself
-   (right outside maintenance); the difference is overridden here, exactly as
-   in Cond.v.  We are inside do_maintenance iff an MSlots continuation is on
-   the stack. *)
+   (right outside maintenance); the difference is overridden here.  We are
+   inside do_maintenance iff an MSlots continuation is on the stack. *)
 Definition is_mslots (f : frame mc) : bool := match f with MSlots => true | _ => false end.
 Definition in_maint (r : stack mc) : bool := existsb is_mslots r.
 
@@ -152,7 +154,7 @@ Definition kstepC (ol : bool) (size : Z) (m : kmem) (t : nat) (s : stack mc) : k
   | KNext q cnt wc h :: r =>
       match nnext m h with
       | O => if (0 <? cnt) && in_maint r
-             then (m, ev t (l_next h) 9 0, YNext ST_RUNNING :: KSpin q cnt wc :: r)
+             then (m, ev t (l_next h) 9 0, KHead q cnt wc :: r)
              else kstep mc (cret ol size) m t s
       | S _ => kstep mc (cret ol size) m t s
       end
